@@ -285,7 +285,16 @@ impl<Q: QueueBackend + 'static> HasTree for StdDev<Q> {
                 ieee488_tst!(),
                 ieee488_wai!(),
                 Leaf { name: b"*TRG", default: false, handler: &scpi_contrib::ieee488::trg::TrgCommand },
-                scpi_status!(),
+                // the STATus subsystem written with the extended arm of `scpi_register!` (register + device-specific nodes)
+                Branch {
+                    name: b"STATus",
+                    default: false,
+                    sub: &[
+                        scpi_contrib::scpi_register!(b"OPERation", scpi_contrib::scpi1999::status::operation::Operation; Leaf { name: b"XTRA", default: false, handler: &NopCommand }),
+                        scpi_contrib::scpi_register!(b"QUEStionable", scpi_contrib::scpi1999::status::questionable::Questionable; Leaf { name: b"XTRA", default: false, handler: &NopCommand }, Leaf { name: b"MORE", default: false, handler: &NopCommand }),
+                        Leaf { name: b"PRESet", default: false, handler: &scpi_contrib::scpi1999::status::StatPresetCommand },
+                    ],
+                },
                 scpi_system!(),
                 Branch {
                     name: b"TEST",
@@ -307,7 +316,7 @@ impl<Q: QueueBackend + 'static> HasTree for StdDev<Q> {
                 ieee488_cls!(),
                 ieee488_ese!(),
                 ieee488_esr!(),
-                ieee488_idn!(b"VERIF", b"HARNESS", b"0", b"1"),
+                ieee488_idn!(b"", b"HARNESS", b"", b"1"),
                 ieee488_opc!(),
                 ieee488_rst!(),
                 ieee488_sre!(),
